@@ -110,6 +110,8 @@ impl AuthorityLockGuard {
                     lock_path.display()
                 )
             })?;
+        #[cfg(rip_verif)]
+        rip_kernel::verif::point("auth.acquire.after_create", "");
 
         let record = AuthorityLockRecord {
             pid: std::process::id(),
@@ -122,6 +124,8 @@ impl AuthorityLockGuard {
             .and_then(|()| file.write_all(b"\n"))
             .map_err(|err| format!("write lock record failed: {err}"))?;
         let _ = file.flush();
+        #[cfg(rip_verif)]
+        rip_kernel::verif::point("auth.acquire.after_write", "");
 
         Ok(Self {
             lock_path,
@@ -150,8 +154,14 @@ impl AuthorityLockGuard {
 
 impl Drop for AuthorityLockGuard {
     fn drop(&mut self) {
+        #[cfg(rip_verif)]
+        rip_kernel::verif::point("auth.drop.before", "");
         let _ = fs::remove_file(&self.meta_path);
+        #[cfg(rip_verif)]
+        rip_kernel::verif::point("auth.drop.after_meta", "");
         let _ = fs::remove_file(&self.lock_path);
+        #[cfg(rip_verif)]
+        rip_kernel::verif::point("auth.drop.after_lock", "");
     }
 }
 
@@ -202,6 +212,8 @@ pub fn try_cleanup_stale_authority_files(
     if lock.pid != expected_pid {
         return Ok(false);
     }
+    #[cfg(rip_verif)]
+    rip_kernel::verif::point("auth.stale.after_reread", "");
 
     let lock_tombstone = lock_path.with_file_name(format!(
         "{}.stale-{}-{}-{}",
@@ -216,6 +228,8 @@ pub fn try_cleanup_stale_authority_files(
         Err(err) if err.kind() == std::io::ErrorKind::NotFound => return Ok(false),
         Err(err) => return Err(format!("rename stale lock failed: {err}")),
     }
+    #[cfg(rip_verif)]
+    rip_kernel::verif::point("auth.stale.after_rename", "");
 
     if let Ok(Some(meta)) = read_authority_meta(&data_dir) {
         if meta.pid == expected_pid {
@@ -232,6 +246,8 @@ pub fn try_cleanup_stale_authority_files(
         }
     }
 
+    #[cfg(rip_verif)]
+    rip_kernel::verif::point("auth.stale.after_meta", "");
     let _ = fs::remove_file(lock_tombstone);
     Ok(true)
 }
@@ -245,6 +261,8 @@ pub fn try_cleanup_corrupt_lock_file(data_dir: impl AsRef<Path>) -> Result<bool,
     if authority_meta_path(&data_dir).exists() {
         return Ok(false);
     }
+    #[cfg(rip_verif)]
+    rip_kernel::verif::point("auth.corrupt.after_checks", "");
 
     let tombstone = lock_path.with_file_name(format!(
         "{}.corrupt-{}-{}",
@@ -268,7 +286,11 @@ fn atomic_write_file(path: &Path, payload: &[u8]) -> std::io::Result<()> {
     }
     let tmp = path.with_extension("tmp");
     fs::write(&tmp, payload)?;
+    #[cfg(rip_verif)]
+    rip_kernel::verif::point("auth.meta.after_tmp", "");
     let _ = fs::remove_file(path);
+    #[cfg(rip_verif)]
+    rip_kernel::verif::point("auth.meta.after_remove", "");
     fs::rename(tmp, path)?;
     Ok(())
 }
